@@ -205,6 +205,10 @@ class Parser:
                 fn,
             )
             raise
+        except ValueError as ex:
+            # a file name the operating system cannot take (e.g. an embedded null byte in an
+            # INCLUDE line) is reported like any other file that cannot be opened
+            raise IOError(f"Invalid file name {fn!r}: {ex}") from ex
 
     def parse_file(self, fn: str) -> Any:
         text = self.open_file(fn)
